@@ -1,6 +1,7 @@
 package c07
 
 import (
+	"bytes"
 	"fmt"
 	"testing"
 
@@ -21,7 +22,7 @@ import (
 
 var recMerge = ev.New("C07", "multisig-merge",
 	"m-of-n multisig (1<=m<=n<=3) bare or P2SH on a generated transaction; the cosigners sign one after the other in a generated order, each with its OWN defined hash type "+
-		"(ALL/NONE/SINGLE with or without ANYONECANPAY), each pass receiving the previous pass' script as previousScript; a pass by a party holding no key of the script, or a repeated pass, may be interleaved; "+
+		"(ALL/NONE/SINGLE with or without ANYONECANPAY; in a fifth of the cases also values with the undefined bits 0x20/0x40, verified under block-validation flags, where additionally flipping such a bit in any signature's hash type byte must make the script fail), each pass receiving the previous pass' script as previousScript; a pass by a party holding no key of the script, or a repeated pass, may be interleaved; "+
 		"oracle: after m distinct cosigners have signed the script verifies under the interpreter (P2SH + strict encoding + DER + null dummy flags), and every signature it carries verifies against the model digest of its own hash type; "+
 		"non-trivial = at least two passes with different hash types; distinct by (tx, script, order, hash types)",
 	"same-hashtype", "differs-in-anyonecanpay-only", "differs-in-base-type", "p2sh", "bare")
@@ -63,8 +64,14 @@ func TestMultisigMerge(t *testing.T) {
 			prev = ss
 			desc += fmt.Sprintf(" key%d/%#x", k.i, ht)
 		}
+		// a fifth of the cases sign with hash types that carry undefined bits (0x20/0x40): consensus
+		// accepts them (they are not standard) and the digest commits to the whole byte
+		withUndefined := rapid.IntRange(0, 4).Draw(t, "undefinedHashTypes") == 0
 		for pi, si := range signersIdx {
 			ht := rapid.SampledFrom(defined).Draw(t, "hashType")
+			if withUndefined {
+				ht = rapid.SampledFrom([]byte{0x01, 0x21, 0x41, 0x61, 0x02, 0x22, 0x42, 0x03, 0x43, 0x81, 0xa1, 0xc1, 0xe3, 0xc2}).Draw(t, "hashTypeU")
+			}
 			if pi > 0 && rapid.IntRange(0, 2).Draw(t, "flipACP") == 0 {
 				ht = hts[pi-1] ^ 0x80 // same outputs committed, other input commitment
 			}
@@ -94,17 +101,45 @@ func TestMultisigMerge(t *testing.T) {
 		})
 		recMerge.Count(map[bool]string{true: "p2sh", false: "bare"}[p2sh], 1)
 
-		w2 := toWire(tx)
-		w2.TxIn[idx].SignatureScript = prev
 		flags := txscript.ScriptBip16 | txscript.ScriptVerifyStrictEncoding | txscript.ScriptVerifyDERSignatures | txscript.ScriptStrictMultiSig
-		vm, err := txscript.NewEngine(pkScript, w2, idx, flags, nil, nil, 0, txscript.NewCannedPrevOutputFetcher(pkScript, 0))
-		if err == nil {
-			err = vm.Execute()
+		if withUndefined {
+			flags = txscript.ScriptBip16 | txscript.ScriptVerifyDERSignatures | txscript.ScriptStrictMultiSig // block-validation flags: undefined hash types are legal
+			recMerge.Count("undefined-hash-type-bits", 1)
 		}
+		run := func(sigScript []byte) error {
+			w3 := toWire(tx)
+			w3.TxIn[idx].SignatureScript = sigScript
+			vm, err := txscript.NewEngine(pkScript, w3, idx, flags, nil, nil, 0, txscript.NewCannedPrevOutputFetcher(pkScript, 0))
+			if err == nil {
+				err = vm.Execute()
+			}
+			return err
+		}
+		err := run(prev)
 		if err != nil {
 			t.Fatalf("%d-of-%d multisig (p2sh=%v) signed by %d cosigners in passes%s does not verify: %v\nmerged script %x\nredeem/multisig script %x",
 				m, n, p2sh, m, desc, err, prev, ms)
 		}
 		_ = wire.MsgTx{}
+		if withUndefined {
+			// the hash type byte is committed to: the same signature under another value of the
+			// undefined bits must not verify (each signature of the script in turn)
+			pushes := pushesOf(prev)
+			for pi := 1; pi < len(pushes) && pi <= m; pi++ {
+				sig := pushes[pi]
+				if len(sig) < 9 {
+					continue
+				}
+				bit := rapid.SampledFrom([]byte{0x20, 0x40}).Draw(t, "flipBit")
+				tampered := bytes.Replace(prev, sig, append(append([]byte{}, sig[:len(sig)-1]...), sig[len(sig)-1]^bit), 1)
+				if bytes.Equal(tampered, prev) {
+					continue
+				}
+				if err := run(tampered); err == nil {
+					t.Fatalf("%d-of-%d multisig (p2sh=%v) passes%s: signature %d still verifies after its hash type byte %#x was changed to %#x (the digest commits to the whole hash type)",
+						m, n, p2sh, desc, pi, sig[len(sig)-1], sig[len(sig)-1]^bit)
+				}
+			}
+		}
 	})
 }
